@@ -80,7 +80,9 @@ func (r *Repository) GetEntriesInTree(treeID Hash) ([]TreeEntry, error) {
 	// of being on Ubuntu 22.04. 22.04 is still widely used in WSL2 environments.
 	// So, we're removing --format and parsing the output differently to handle
 	// the extra information for each entry we don't need.
-	stdOut, err := r.executor("ls-tree", treeID.String()).executeString()
+	// -z terminates entries with NUL and leaves path names verbatim (no
+	// quoting of spaces, quotes, control or non-ASCII characters)
+	stdOut, err := r.executor("ls-tree", "-z", treeID.String()).executeRawString()
 	if err != nil {
 		return nil, fmt.Errorf("unable to enumerate items in tree '%s': %w", treeID.String(), err)
 	}
@@ -89,22 +91,25 @@ func (r *Repository) GetEntriesInTree(treeID Hash) ([]TreeEntry, error) {
 		return nil, nil // alternatively, just check if treeID is empty tree?
 	}
 
-	lines := strings.Split(stdOut, "\n")
+	lines := splitNULTerminated(stdOut)
 	entries := make([]TreeEntry, 0, len(lines))
 	for _, line := range lines {
 		// Without --format, the output is in the following format:
 		// <mode> SP <type> SP <object> TAB <file>
 		// From: https://git-scm.com/docs/git-ls-tree/2.34.1#_output_format
 
-		fields := strings.Split(line, " ")
+		metadata, name, hasName := strings.Cut(line, "\t")
+		fields := strings.Split(metadata, " ")
+		if !hasName || len(fields) != 3 {
+			return nil, fmt.Errorf("unexpected ls-tree entry '%s'", line)
+		}
 		// fields[0] is <mode> -- discard
 		// fields[1] is <type> -- blob or tree
-		// fields[2] is <object> TAB <file>
-		objectAndName := strings.Split(fields[2], "\t")
+		// fields[2] is <object>
 
-		hash, err := NewHash(objectAndName[0])
+		hash, err := NewHash(fields[2])
 		if err != nil {
-			return nil, fmt.Errorf("invalid Git ID '%s' for path '%s': %w", objectAndName[0], objectAndName[1], err)
+			return nil, fmt.Errorf("invalid Git ID '%s' for path '%s': %w", fields[2], name, err)
 		}
 
 		kind := gitstore.KindBlob
@@ -112,7 +117,7 @@ func (r *Repository) GetEntriesInTree(treeID Hash) ([]TreeEntry, error) {
 			kind = gitstore.KindSubtree
 		}
 
-		entries = append(entries, TreeEntry{Path: objectAndName[1], ID: hash, Kind: kind})
+		entries = append(entries, TreeEntry{Path: name, ID: hash, Kind: kind})
 	}
 
 	return entries, nil
@@ -126,7 +131,9 @@ func (r *Repository) GetAllFilesInTree(treeID Hash) (map[string]Hash, error) {
 	// of being on Ubuntu 22.04. 22.04 is still widely used in WSL2 environments.
 	// So, we're removing --format and parsing the output differently to handle
 	// the extra information for each entry we don't need.
-	stdOut, err := r.executor("ls-tree", "-r", treeID.String()).executeString()
+	// -z terminates entries with NUL and leaves path names verbatim (no
+	// quoting of spaces, quotes, control or non-ASCII characters)
+	stdOut, err := r.executor("ls-tree", "-r", "-z", treeID.String()).executeRawString()
 	if err != nil {
 		return nil, fmt.Errorf("unable to enumerate all files in tree: %w", err)
 	}
@@ -135,7 +142,7 @@ func (r *Repository) GetAllFilesInTree(treeID Hash) (map[string]Hash, error) {
 		return nil, nil // alternatively, just check if treeID is empty tree?
 	}
 
-	entries := strings.Split(stdOut, "\n")
+	entries := splitNULTerminated(stdOut)
 	if len(entries) == 0 {
 		return nil, nil
 	}
@@ -146,19 +153,19 @@ func (r *Repository) GetAllFilesInTree(treeID Hash) (map[string]Hash, error) {
 		// <mode> SP <type> SP <object> TAB <file>
 		// From: https://git-scm.com/docs/git-ls-tree/2.34.1#_output_format
 
-		entrySplit := strings.Split(entry, " ")
-		// entrySplit[0] is <mode> -- discard
-		// entrySplit[1] is <type> -- discard
-		// entrySplit[2] is <object> TAB <file> -- keep
-		entrySplit = strings.Split(entrySplit[2], "\t")
-
-		// <object> is really the object ID
-		hash, err := NewHash(entrySplit[0])
-		if err != nil {
-			return nil, fmt.Errorf("invalid Git ID '%s' for path '%s': %w", entrySplit[0], entrySplit[1], err)
+		metadata, name, hasName := strings.Cut(entry, "\t")
+		fields := strings.Split(metadata, " ")
+		if !hasName || len(fields) != 3 {
+			return nil, fmt.Errorf("unexpected ls-tree entry '%s'", entry)
 		}
 
-		files[entrySplit[1]] = hash
+		// fields[2] is the object ID
+		hash, err := NewHash(fields[2])
+		if err != nil {
+			return nil, fmt.Errorf("invalid Git ID '%s' for path '%s': %w", fields[2], name, err)
+		}
+
+		files[name] = hash
 	}
 
 	return files, nil
@@ -465,10 +472,11 @@ func (t *TreeBuilder) writeTree(entries []treeNode) (Hash, error) {
 			// TODO: support entryBlob's permissions here
 			input += "100644 blob " + entry.gitID.String() + "\t" + entry.name
 		}
-		input += "\n"
+		// NUL terminated so that names are taken verbatim
+		input += "\x00"
 	}
 
-	stdOut, err := t.repo.executor("mktree").withStdIn(bytes.NewBufferString(input)).executeString()
+	stdOut, err := t.repo.executor("mktree", "-z").withStdIn(bytes.NewBufferString(input)).executeString()
 	if err != nil {
 		return ZeroHash, fmt.Errorf("unable to write Git tree: %w", err)
 	}
@@ -531,6 +539,16 @@ func (e *entryBlob) getID() Hash {
 // NewEntryBlob creates a TreeEntry that represents a Git blob.
 func NewEntryBlob(name string, gitID Hash) TreeEntry {
 	return TreeEntry{Path: name, ID: gitID, Kind: gitstore.KindBlob}
+}
+
+// splitNULTerminated splits the output of a Git command invoked with -z into
+// its NUL terminated records.
+func splitNULTerminated(output string) []string {
+	records := strings.Split(output, "\x00")
+	if len(records) != 0 && records[len(records)-1] == "" {
+		records = records[:len(records)-1]
+	}
+	return records
 }
 
 // ensureIsTree is a helper to check that the ID represents a Git tree
